@@ -504,6 +504,7 @@ func runOnce(c C18Case) verdict {
 
 	// --- the plugin directory ------------------------------------------------------------
 	canExec := map[string]bool{} // plugin file -> the runtime is allowed to execute it
+	var fifos []string           // FIFOs placed in (or linked from) the plugin directory
 	if !c.NoPluginDir {
 		if err := os.Mkdir(pdir, 0o755); err != nil {
 			return infra("%v", err)
@@ -540,6 +541,43 @@ func runOnce(c C18Case) verdict {
 	for _, e := range c.Others {
 		dst := filepath.Join(pdir, e.Name)
 		switch e.Kind {
+		case "fifo", "sock", "fifolink", "socklink", "devlink":
+			// entries that are not regular files, with execute bits and a plugin's name
+			target := dst
+			if e.Kind == "fifolink" || e.Kind == "socklink" {
+				if err := os.MkdirAll(filepath.Join(root, "elsewhere"), 0o755); err != nil {
+					return infra("%v", err)
+				}
+				target = filepath.Join(root, "elsewhere", e.Name)
+			}
+			switch e.Kind {
+			case "fifo", "fifolink":
+				if err := syscall.Mkfifo(target, 0o600); err != nil {
+					return infra("mkfifo: %v", err)
+				}
+				fifos = append(fifos, target)
+			case "sock", "socklink":
+				l, err := net.ListenUnix("unix", &net.UnixAddr{Name: target, Net: "unix"})
+				if err != nil {
+					return infra("socket entry: %v", err)
+				}
+				l.SetUnlinkOnClose(false)
+				l.Close()
+			case "devlink":
+				if err := os.Symlink("/dev/null", dst); err != nil {
+					return infra("%v", err)
+				}
+			}
+			if e.Kind != "devlink" {
+				if err := os.Chmod(target, os.FileMode(e.Mode)); err != nil {
+					return infra("%v", err)
+				}
+			}
+			if target != dst {
+				if err := os.Symlink(target, dst); err != nil {
+					return infra("%v", err)
+				}
+			}
 		case "dirlink":
 			if err := os.MkdirAll(filepath.Join(root, "elsewhere", e.Name+".d"), 0o755); err != nil {
 				return infra("%v", err)
@@ -697,12 +735,32 @@ func runOnce(c C18Case) verdict {
 	t0 := time.Now()
 	var startErr error
 	startC := make(chan error, 1)
-	go func() { startC <- a.Start() }()
+	go func() {
+		if c.StartThread == "locked_thread_exits" {
+			// never unlocked: when this goroutine ends, Go terminates the thread that forked
+			// the plugin processes
+			runtime.LockOSThread()
+		}
+		startC <- a.Start()
+	}()
 	select {
 	case startErr = <-startC:
 	case <-time.After(startBound):
 		// Start holds the adaptation's lock: Stop would block as well. Abandon the instance,
 		// kill what was launched (the deferred clean-up does, from the reports).
+		// if nri sits in open(2) on a FIFO, let it go on (a writer makes the open return) so
+		// that no goroutine stays blocked behind this case
+		for _, f := range fifos {
+			if fd, err := syscall.Open(f, syscall.O_WRONLY|syscall.O_NONBLOCK|syscall.O_CLOEXEC, 0); err == nil {
+				syscall.Close(fd)
+			}
+		}
+		select {
+		case <-startC:
+			h.note("Start returned after the harness opened the FIFOs for writing")
+			a.Stop()
+		case <-time.After(3 * time.Second):
+		}
 		reports, _ = readReports(root)
 		for _, r := range reports {
 			trackPid(r.Pid, r.StartTime)
@@ -714,6 +772,9 @@ func runOnce(c C18Case) verdict {
 			startBound, len(c.Plugins), wantSync)
 	}
 	h.note("Start returned %v after %v", startErr, time.Since(t0).Round(time.Millisecond))
+	if c.StartThread != "" {
+		time.Sleep(300 * time.Millisecond) // the calling thread is gone by now
+	}
 	stopped := false
 	defer func() {
 		if !stopped {
@@ -1296,8 +1357,11 @@ func judge(c C18Case, h *history, startErr error, reports []Report, lines []Line
 	distractors := 0
 	for _, e := range c.Others {
 		distractors++
-		if e.Kind == "dirlink" || e.Kind == "filelink" {
+		if e.Kind == "dirlink" || e.Kind == "filelink" || isSpecialKind(e.Kind) {
 			cls("distractor:" + e.Kind)
+			if isSpecialKind(e.Kind) {
+				cls("distractor:not_a_regular_file_with_execute_bits")
+			}
 		} else if e.Kind == "dir" {
 			cls("distractor:dir")
 			if e.Inner != "" {
@@ -1415,6 +1479,12 @@ func judge(c C18Case, h *history, startErr error, reports []Report, lines []Line
 			cls("sync_state:just_below_4MiB")
 		default:
 			cls("sync_state:small")
+		}
+	}
+	if c.StartThread != "" {
+		cls("start_thread:" + c.StartThread)
+		if len(active) > 0 || dropsAtEvent > 0 {
+			cls("healthy_plugins_outlive_the_thread_that_called_start")
 		}
 	}
 	if c.SyncFn != "" {
@@ -1706,6 +1776,24 @@ func TestExh_C18(t *testing.T) {
 		Listen:  true,
 		Exts:    []Ext{{Idx: "10", Name: "e0", Join: 0, Leave: 2}, {Idx: "20", Name: "e1", Join: 1, Leave: len(ops) + 1}, {Idx: "05", Name: "e2", Join: 3, Leave: 4}},
 	})
+	// Start is called from a goroutine locked to its OS thread which ends right afterwards
+	for _, n := range []int{1, 3} {
+		c := C18Case{Ops: ops, StartThread: "locked_thread_exits", StopAfter: "20ms"}
+		for j := 0; j < n; j++ {
+			c.Plugins = append(c.Plugins, Plugin{Idx: fmt.Sprintf("%d0", j+1), Stem: "t", Behav: bOK, Mode: 0o755})
+		}
+		cases = append(cases, c)
+	}
+	// entries that are not regular files, with execute bits and plugin names, between healthy
+	// plugins: never launched, Start returns, nobody else is affected
+	for _, kind := range []string{"fifo", "sock", "devlink", "fifolink", "socklink"} {
+		cases = append(cases, C18Case{
+			Plugins: []Plugin{{Idx: "10", Stem: "a", Behav: bOK, Mode: 0o755}, {Idx: "30", Stem: "c", Behav: bOK, Mode: 0o755}},
+			Others:  []Entry{{Name: "20-" + kind + "_ok", Kind: kind, Mode: 0o755}, {Name: "05-" + kind + "_ok", Kind: kind, Mode: 0o711}},
+			Confs:   []Conf{{File: "20-" + kind + "_ok.conf", Content: "nobody reads this\n"}},
+			Ops:     ops[:2],
+		})
+	}
 	// plugins that answer Configure with an event mask the runtime does not know (every
 	// variant), between healthy ones
 	for k := 0; k < nBadMasks; k++ {
